@@ -33,6 +33,7 @@ func runC06(c *Ctx) {
 	r.Rule("C06.R2", "populateSDP, per section: the BUNDLE value receives section.id at most once, only on paths where the section was emitted (shouldAddID true: data section, or addTransceiverSDP returned true) and the remote bundle group matches; otherwise the emitted section's port is zeroed; exactly one of the two happens for an emitted section and neither for a rejected one; addTransceiverSDP returns true only after emitting the full section and false only after the rejected (port 0) one", 10)
 	r.Rule("C06.R3", "every path of addTransceiverSDP / addDataMediaSection to the emission of the accepted section passes exactly one setup attribute (from the role parameter), exactly one mid attribute (from the parameter populateSDP binds to section.id), one WithICECredentials(ufrag, pwd) and exactly one direction attribute, and one fingerprint loop over the fingerprint parameter; populateSDP hands the fingerprints to the section builders iff mediaDescriptionFingerprint and emits them at session level iff not", 14)
 	r.Rule("C06.R4", "fresh mids are unique: same scan rule as C09.R5 (every existing mid raises greaterMid before a fresh one is handed out)", 2)
+	r.Rule("C06.R6", "typestate of new transceivers: every `v := &RTPTransceiver{...}` passes v.setDirection(d) on every path before v is used for anything but its own setters, and no setDirection is given the constant zero direction (a transceiver without a stored direction renders a=unknown, i.e. no direction attribute)", 2)
 	r.Rule("C06.R5", "same rule as C09.R6: a len-based data-section mid is computed after all other sections were appended", 1)
 	r.NotCovered = append(r.NotCovered,
 		"uniqueness of mids over arbitrary histories beyond provenance (e.g. a remote peer reusing a mid)",
@@ -46,6 +47,7 @@ func runC06(c *Ctx) {
 	c06Dump(c)
 	c09R5(c, "C06.R4")
 	c09R6(c, "C06.R5")
+	c06R6(c, "C06.R6") // c06c.go
 }
 
 // c06Rules runs every rule of the property on the program held by c.
